@@ -42,7 +42,7 @@ Section FixLoop.
   (* main phase: the first pass runs every rule and (as the code stands) so do the later main passes, restricted to
      fix-compatible rules; post phase: post rules, two passes.  Returns (tree, limit_hit). *)
   Definition lint_fix (limit : nat) (rules : list rule) (t0 : T) : T * bool :=
-    match loop limit true rules {| tree := t0; last := None; prev := []; changed := false |} with
+    match loop limit true rules {| tree := t0; last := None; prev := [t0]; changed := false |} with   (* previous_versions = {(tree.raw, ())} *)
     | None => (t0, true)
     | Some s1 => match loop 2 false (filter r_post rules) s1 with
                  | None => (t0, true)
@@ -52,5 +52,5 @@ Section FixLoop.
 
   (* replay of the observed apply_fixes calls of one real run: events (fixes id, new tree, valid) in order *)
   Definition replay (t0 : T) (events : list (F * T * bool)) : st :=
-    fold_left (fun s e => let '(f, nt, v) := e in adopt s f nt v) events {| tree := t0; last := None; prev := []; changed := false |}.
+    fold_left (fun s e => let '(f, nt, v) := e in adopt s f nt v) events {| tree := t0; last := None; prev := [t0]; changed := false |}.
 End FixLoop.
